@@ -331,6 +331,56 @@ func runC01(c *Ctx) {
 				doCase(size, gen.PatRandom, kc, "ctype", 99)
 			}
 		}
+		// look-alike keys: distinct keys of one bucket that differ only in the characters a
+		// backend may fold when it derives internal names ('/', '\\', '_', '-', '.', case)
+		if j.path == "put" && j.shard == 0 {
+			alike := []string{"look/alike_key", "look_alike/key", "look_alike_key", `look\alike_key`, "look/alike/key", "look-alike_key", "look.alike_key", "Look_alike_key", "look_alike_key-", "look__alike_key"}
+			type stored struct {
+				body []byte
+				meta http.Header
+			}
+			have := map[string]stored{}
+			verify := func(stage string) {
+				for k, st := range have {
+					for _, how := range []string{"get", "head"} {
+						var resp *drv.Resp
+						if how == "get" {
+							resp = s.Get(bucket, k)
+						} else {
+							resp = s.Head(bucket, k)
+						}
+						r.Count("lookalike_reads", 1)
+						c01CheckRead(r, j.kind, how+"-lookalike-"+stage, "put", k, c01Expect{body: st.body, meta: st.meta}, resp.Status, resp.Body, how == "get", resp.ETag(), resp.Header.Get("Content-Length"), resp.Header, "small")
+					}
+				}
+			}
+			for i, k := range alike {
+				body := gen.Body(rng, 20+i, gen.PatRandom, uint32(9000+i))
+				meta := drv.H("Content-Type", fmt.Sprintf("text/x-alike-%d", i), "x-amz-meta-which", k, "Content-Disposition", fmt.Sprintf("inline; n=%d", i))
+				if up := s.Put(bucket, k, body, meta.Clone()); up.Status == 200 {
+					have[k] = stored{body, meta}
+					r.Eval(1)
+					r.Distinct(fmt.Sprintf("%s|%v|lookalike|%s", j.kind, j.noIntegrity, k))
+				}
+				verify("after-put")
+			}
+			for i, k := range alike {
+				if _, ok := have[k]; !ok {
+					continue
+				}
+				if i%2 == 0 {
+					s.Delete(bucket, k)
+					delete(have, k)
+				} else {
+					body := gen.Body(rng, 40+i, gen.PatRandom, uint32(9100+i))
+					meta := drv.H("Content-Type", fmt.Sprintf("text/x-alike-second-%d", i), "x-amz-meta-which", "second "+k, "Content-Disposition", "attachment")
+					if up := s.Put(bucket, k, body, meta.Clone()); up.Status == 200 {
+						have[k] = stored{body, meta}
+					}
+				}
+				verify("after-overwrite-or-delete")
+			}
+		}
 		// random sizes
 		for i := 0; i < r.Pick(12, 200); i++ {
 			size := rng.Intn(200000)
